@@ -107,9 +107,10 @@ inline int main_loop(int argc, char **argv, Spec &sp) {
     if (reported[key]++ < 3)
       J().s("t", "viol").s("key", key).s("desc", desc + " [case " + c.id() + "]").raw("replay", J().s("harness", sp.harness).s("args", extra).s("single", c.id()).str()).emit();
   };
-  run_batch((long)mine.size(), [&](long k) { return sp.run(getcase(k)); }, sink, sp.alarm_s);
+  run_batch((long)mine.size(), [&](long k) { return sp.run(getcase(k)); }, sink, sp.alarm_s, 5);
+  bool capped = (size_t)(evals ? 1 : 0) && outcomes.size() && [&] { long seen = 0; for (auto &o : outcomes) seen += o.second; return seen < (long)mine.size(); }();
   std::vector<std::string> cl(classes.begin(), classes.end());
-  J().s("t", "cov").n("evaluations", evals).n("cases_total", (long)total).n("violating_cases", nviol).emit();
+  J().s("t", "cov").n("evaluations", evals).n("cases_total", (long)total).n("violating_cases", nviol).n("stopped_after_repeated_hangs", capped ? 1 : 0).emit();
   J().s("t", "set").s("name", "classes").raw("items", jarrs(cl)).emit();
   J().s("t", "hist").s("name", "outcomes").raw("counts", jmap(outcomes)).emit();
   return 0;
